@@ -259,8 +259,10 @@ JudgeDelta(s, e, z, strict) ==
             ELSE Bad({"C07"} \cup absTags \cup QTags(e, it), s, "delta.nocreate.bad")
         ELSE IF goodAck(e.i) THEN
             IF nc = "0" THEN Bad({"C01", "C02"}, s, "delta.cas0")
-            ELSE OK(Stored(s, e, k, TextHex(e.i), Wild, nc, e.ttl, FALSE, Cond(e)), "delta.create")
-        ELSE IF Cond(e) /\ (Status(e, 1) \/ Status(e, 2)) THEN OK(s, "delta.absent.clientcas.refused")
+            ELSE OK(Stored(s, e, k, TextHex(e.i), Wild, nc, e.ttl, FALSE, Cond(e)),
+                    IF Cond(e) THEN "delta.create.clientcas" ELSE "delta.create")
+        \* C07 quantifies over all CAS fields: the counter is created whatever CAS the request carries (C02 only
+        \* exempts the lifetime so begun from its uniqueness claim); a refusal is not accepted
         ELSE Bad({"C07"} \cup absTags \cup QTags(e, it), s, "delta.create.bad")
 
 JudgeDelete(s, e, z, strict) ==
